@@ -20,7 +20,7 @@ RULE = ('(a) ordered sets of <=2 trajectories (len 1..4, 3 states; Q: second tra
         'x builder {normalize,transpose,mle(every 5th set, trimmed only)} x trim x sliding x max_n_states {None,5}: estimator vs function pipeline; (b) save/load on every 7th '
         'configuration; (c) all irreducible row-stochastic matrices n=3 with rows on the denominator-4 simplex lattice '
         '(T: + n=4 denominator 2) dense+csr: eigenspectrum laws, implied_timescales on assignment sets, synthetic_ensemble '
-        'for n<=5 and all lattice start vectors; the sparse >=1000-state (ARPACK) branch of eigenspectrum on a family of '
+        'for n<=5 and all lattice start vectors; synthetic_ensemble over 2..4000 (T: 20000) steps of slowly mixing 2/3/4-state chains with crossing probabilities 1e-2..1e-8 (history = p0 T^k at every step); the sparse >=1000-state (ARPACK) branch of eigenspectrum on a family of '
         'nearly periodic (stay 0.03) and lazy (0.5) reversible walks on bipartite circulant graphs with 1000 and 1100 states x n_eigs {2,4,6}; state=(assignments|matrix, configuration); non-trivial = configuration '
         'where sliding and strided counts differ / chain with complex or negative eigenvalues')
 ASSUMPTIONS = ['eigenvalues are compared at 1e-6, widened to 1e-13**(1/m) for a cluster of m reference eigenvalues closer than 1e-3 (defective eigenvalues are ill-conditioned for every solver)',
@@ -30,14 +30,14 @@ ASSUMPTIONS = ['eigenvalues are compared at 1e-6, widened to 1e-13**(1/m) for a 
                'is only asserted when populations are finite',
                'one-state models: eq_probs_ comes back 0-d from loadtxt; compared after atleast_1d',
                'max_n_states is not part of MSM.config and is not asserted to survive save/load']
-GUARDS = {'arpack_branch': 10, 'sliding_differs': 500, 'trim_removed_states': 500, 'roundtrip': 200, 'complex_eigs': 100, 'negative_eigs': 100,
+GUARDS = {'slow_chain_long_run': 50, 'arpack_branch': 10, 'sliding_differs': 500, 'trim_removed_states': 500, 'roundtrip': 200, 'complex_eigs': 100, 'negative_eigs': 100,
           'pipeline_raises_both': 0, 'imp_times': 100}
 NSH = {'quick': 60, 'thorough': 240}
 
 
 def shards(tier, seed):
     return [('fit', tier, i) for i in range(NSH[tier])] + [('spec', tier, i) for i in range(16)] + \
-        [('arpack', tier, i) for i in range(8)]
+        [('arpack', tier, i) for i in range(8)] + [('slow', tier, i) for i in range(8)]
 
 
 def dense(M):
@@ -237,6 +237,59 @@ def check_spectrum(case, ctx):
                 break
 
 
+def check_slow(case, ctx):
+    """long propagations of slowly mixing chains: n steps = n multiplications, however small the change per step"""
+    from enspara.msm import synthetic_data
+    T = np.array(case['T'], float)
+    p0 = np.array(case['p0'], dtype=case.get('p0_dtype', 'float64'))
+    steps, cont = case['steps'], case['container']
+    ctx.ev()
+    ctx.guard('slow_chain_long_run')
+    ctx.state(('slow', T.tobytes(), p0.tobytes(), steps, cont), nontrivial=True)
+    M = T.copy() if cont == 'ndarray' else sp.csr_matrix(T)
+    want = [p0.astype(float)]
+    for k in range(steps - 1):
+        want.append(want[-1] @ T)
+    want = np.array(want)
+    obsv = np.arange(len(T), dtype=float) * 2 + 1
+    try:
+        pf, hist = synthetic_data.synthetic_ensemble(M, p0, steps)
+        _, obs = synthetic_data.synthetic_ensemble(M, p0, steps, observable_per_state=obsv)
+    except Exception as e:
+        ctx.violation('ensemble:slow:raises:%s' % type(e).__name__, case, repr(e))
+        return
+    hist = np.asarray(hist, float)
+    if hist.shape != want.shape:
+        ctx.violation('ensemble:slow:shape', case, 'history %s want %s' % (hist.shape, want.shape))
+        return
+    err = np.abs(hist - want).max(axis=1)
+    if err.max() > 1e-12:
+        k = int(np.argmax(err > 1e-12))
+        ctx.violation('ensemble:slow:not_n_multiplications', case, 'history departs from p0 T^k at step %d (of %d): %r vs %r; final %r vs %r' % (
+            k, steps, hist[k].tolist(), want[k].tolist(), hist[-1].tolist(), want[-1].tolist()))
+        return
+    if np.abs(np.asarray(pf, float) - want[-1]).max() > 1e-12 or np.abs(np.asarray(obs, float) - want @ obsv).max() > 1e-11:
+        ctx.violation('ensemble:slow:final_or_observable', case, 'final %r want %r' % (np.asarray(pf).tolist(), want[-1].tolist()))
+
+
+def slow_cases(tier):
+    out = []
+    for eps in (1e-2, 1e-4, 1e-6, 1e-8):
+        chains = [[[1 - eps, eps], [2 * eps, 1 - 2 * eps]],
+                  [[1 - eps, eps, 0], [eps, 1 - 3 * eps, 2 * eps], [0, 5 * eps, 1 - 5 * eps]],
+                  [[0.5, 0.5 - eps, eps, 0], [0.3, 0.7 - eps, 0, eps], [eps, 0, 0.6 - eps, 0.4], [0, eps, 0.5, 0.5 - eps]]]
+        for T in chains:
+            n = len(T)
+            for start in (0, n - 1):
+                p0 = [0.0] * n
+                p0[start] = 1.0
+                for steps in (2, 50, 1000) + ((20000,) if tier == 'thorough' else (4000,)):
+                    for cont in ('ndarray', 'csr'):
+                        out.append({'kind': 'slow', 'T': T, 'p0': p0, 'steps': steps, 'container': cont})
+            out.append({'kind': 'slow', 'T': T, 'p0': [1.0 / n] * n, 'steps': 300, 'container': 'ndarray'})
+    return out
+
+
 def big_chain(n, stay, skew):
     """lazy random walk on a weighted bipartite circulant graph: node i <-> i +- (2^m - 1) mod n, m = 1..6 (n even),
     edge weight 1 + ((i + j) % 3).  Reversible with respect to pi ~ weighted degree (NOT uniform, so left and right
@@ -374,6 +427,12 @@ def check_imp(case, ctx):
 
 def run_shard(sh, ctx):
     kind, tier, i = sh
+    if kind == 'slow':
+        cs = slow_cases(tier)
+        for j in range(i, len(cs), 8):
+            check_slow(cs[j], ctx)
+        ctx.sample(cs[i])
+        return
     if kind == 'fit':
         S = seqs(4)
         S2 = S if tier == 'thorough' else S[3::5]
@@ -441,4 +500,4 @@ def run_shard(sh, ctx):
 
 
 def replay(case, ctx):
-    {'fit': check_fit, 'spec': check_spectrum, 'imp': check_imp, 'arpack': check_arpack}[case['kind']](case, ctx)
+    {'fit': check_fit, 'spec': check_spectrum, 'imp': check_imp, 'arpack': check_arpack, 'slow': check_slow}[case['kind']](case, ctx)
